@@ -31,3 +31,32 @@ def parseInt : List Nat → Option Int
   | s => (parseNat s).map fun n => (n : Int)
 
 end Verif.Num
+
+/-! ### fixed-point text: `'{0:.4f}'.format(x)` as (sign, x·10⁴ rounded) and back -/
+namespace Verif.Num
+
+/-- the four digits after the point -/
+def frac4 (r : Nat) : List Nat := [r / 1000 % 10 + 48, r / 100 % 10 + 48, r / 10 % 10 + 48, r % 10 + 48]
+
+/-- text of the number `± k / 10⁴` with four decimals (`-0.0000` exists: a negative number that rounds to zero) -/
+def renderFixed4 (neg : Bool) (k : Nat) : List Nat :=
+  (if neg then [45] else []) ++ renderNat (k / 10000) ++ 46 :: frac4 (k % 10000)
+
+/-- an optional minus sign in front -/
+def signBody : List Nat → Bool × List Nat
+  | 45 :: r => (true, r)
+  | r => (false, r)
+
+/-- sign, digits up to the point, exactly four digits after it -/
+def parseFixed4 (s : List Nat) : Option (Bool × Nat) :=
+  let p := signBody s
+  match p.2.dropWhile (· != 46) with
+  | 46 :: fr =>
+    if fr.length == 4 then
+      match parseNat (p.2.takeWhile (· != 46)), parseNat fr with
+      | some a, some b => some (p.1, a * 10000 + b)
+      | _, _ => none
+    else none
+  | _ => none
+
+end Verif.Num
